@@ -55,6 +55,9 @@ class RecursiveDescentParser:
         expected_types = typ if isinstance(typ, (list, tuple, set)) else [typ]
 
         tok = self.next_token()
+        if tok is None:
+            expected = make_comma_or(expected_types)
+            self.error(f"Expected {expected}, got end of input")
         if tok.typ in expected_types:
             return tok
         else:
